@@ -75,13 +75,17 @@ def main(argv):
                 rc, wall, out = run_check(d, prop, tier)
                 viol = [l for l in out.splitlines()
                         if l.startswith(('VIOLATION', '  class='))][:2]
-                print('%-28s exit=%d %5.1fs %s' % (
+                exp = m.get('expect', 'caught')
+                print('%-28s exit=%d %5.1fs %s%s' % (
                     m['name'], rc, wall,
                     'CAUGHT' if rc == 1 else 'MISSED' if rc == 0 else
-                    'HARNESS-ERROR'), flush=True)
+                    'HARNESS-ERROR',
+                    ' (equivalent mutant: expected)' if exp == 'missed'
+                    and rc == 0 else ''), flush=True)
                 for l in viol:
                     print('      ' + l[:230])
-                if rc != 1:
+                if (rc != 1 and exp == 'caught') or (exp == 'missed'
+                                                      and rc != 0):
                     rc_all = 1
                     print(out[-1500:])
             finally:
